@@ -4,6 +4,7 @@ import (
 	"context"
 	"errors"
 	"fmt"
+	"slices"
 	"sort"
 	"strconv"
 	"strings"
@@ -1026,8 +1027,15 @@ func (c *compiler) compileFunc(e *Func) error {
 		}
 	}
 	if fn, ok := c.customFuncs[e.Name]; ok && fn.accept(len(e.Args)) {
+		callback := fn.callback
+		if len(e.Args) > 0 {
+			// Do not share the argument buffer of the interpreter with user code.
+			callback = func(v any, args []any) any {
+				return fn.callback(v, slices.Clone(args))
+			}
+		}
 		if err := c.compileCallInternal(
-			[3]any{fn.callback, len(e.Args), e.Name},
+			[3]any{callback, len(e.Args), e.Name},
 			e.Args,
 			true,
 			0, // evaluate the arguments as values, not as paths
